@@ -360,9 +360,10 @@ package otto
 //@   ensures isGoNumber(argOf(call, 0)) ==> result.kind == valueNumber && is(result.value, float64) && sameFloat(result.value.(float64), es5Round(numOf(argOf(call, 0))))
 
 // ES5 B.2.1: escape leaves exactly A-Z a-z 0-9 @ * _ + - . / unescaped.
+//@ spec escapeKeeps(chr uint8) bool = (65 <= chr && chr <= 90) || (97 <= chr && chr <= 122) || (48 <= chr && chr <= 57) || chr == 64 || chr == 42 || chr == 95 || chr == 43 || chr == 45 || chr == 46 || chr == 47
 //@ func builtinShouldEscape
 //@   props C13
-//@   ensures result <==> !((65 <= chr && chr <= 90) || (97 <= chr && chr <= 122) || (48 <= chr && chr <= 57) || chr == 64 || chr == 42 || chr == 95 || chr == 43 || chr == 45 || chr == 46 || chr == 47)
+//@   ensures result <==> !escapeKeeps(chr)
 //@   nothrow
 
 // ES5 15.8.2.13 rows that do not depend on the accuracy of the library.
@@ -782,6 +783,8 @@ package otto
 //@   throws throw
 //@   modifies exception.value
 
+//@ spec absentBelow(l []string, name string, n int) bool = forall p int :: 0 <= p && p < n && p < len(l) ==> l[p] != name
+//@ spec distinctNames(l []string) bool = forall a int :: (forall b int :: (0 <= a && a < b && b < len(l) ==> l[a] != l[b]))
 // removal from the property table: the entry is gone, every other entry is untouched
 //@ func (*object).deleteProperty
 //@   props C07
@@ -789,6 +792,22 @@ package otto
 //@   ensures !has(o.property, name)
 //@   ensures forall k string :: k != name ==> (has(o.property, k) <==> old(has(o.property, k))) && o.property[k] == old(o.property[k])
 //@   ensures o.property == old(o.property)
+// the enumeration order list: the name is gone from it, nothing is added, and the list an
+// enumeration in progress may be ranging over (the old one) is left as it was
+//@   invariant@1 0 <= len(order) && len(order) <= $i + 1 && len(order) <= old(len(o.propertyOrder))
+//@   invariant@1 forall j int :: 0 <= j && j < len(order) ==> order[j] != name
+//@   invariant@1 !samearray(order, old(o.propertyOrder)) || old(len(o.propertyOrder)) == 0
+//@   invariant@1 forall j int :: 0 <= j && j < old(len(o.propertyOrder)) ==> old(o.propertyOrder)[j] == old(o.propertyOrder[j])
+//@   ensures old(has(o.property, name)) ==> (forall j int :: 0 <= j && j < len(o.propertyOrder) ==> o.propertyOrder[j] != name)
+// insertion order: as long as the name has not been met the new list is a copy of the old one
+// (the clause "the one occurrence is taken out and the rest moves up by one" needs a case split
+// over the position of the name that no installed solver finishes; it is not claimed)
+//@   invariant@1 distinctNames(old(o.propertyOrder)) && absentBelow(old(o.propertyOrder), name, $i + 1) ==> len(order) == $i + 1
+//@   ensures old(has(o.property, name)) && distinctNames(old(o.propertyOrder)) && absentBelow(old(o.propertyOrder), name, old(len(o.propertyOrder))) ==> len(o.propertyOrder) == old(len(o.propertyOrder))
+//@   ensures old(has(o.property, name)) && old(len(o.propertyOrder)) > 0 ==> !samearray(o.propertyOrder, old(o.propertyOrder))
+//@   ensures forall j int :: 0 <= j && j < old(len(o.propertyOrder)) ==> old(o.propertyOrder)[j] == old(o.propertyOrder[j])
+//@   ensures len(o.propertyOrder) <= old(len(o.propertyOrder))
+//@   ensures !old(has(o.property, name)) ==> o.propertyOrder == old(o.propertyOrder)
 //@   modifies object.propertyOrder, elems(string), map(string;property)
 //@   nothrow
 
@@ -945,6 +964,12 @@ package otto
 // Package-level state is written only by the package initialisers: nothing is shared
 // mutably between runtimes through globals (C20).
 //@ globals_readonly[C20]
+// Copy() clones a native function object but shares its Go function value, so a function literal
+// stored as nativeFunctionObject.call/construct must not capture the runtime or an object of the
+// runtime that created it (it has to take both from the call).  Exceptions: the "stack" getters of
+// error objects capture the error object and read only its value field (the ottoError), which is
+// written once, before the getter exists.
+//@ native_closures[C17,C20] except=newErrorObject,newErrorObjectError
 
 // ---------------------------------------------------------------------------
 // clone.go, otto.go: Copy() (C17, C20, C14, C02)
@@ -1988,6 +2013,12 @@ package otto
 //@   stable call.ArgumentList
 //@   invariant@1 int(length) <= $i + 1 && seen != nil
 //@   invariant@1 forall j int :: 0 <= j && j < int(length) ==> has(seen, propertyList[j])
+// 15.12.3 step 4.b.ii, per element of the replacer array: a String or Number (primitive or wrapper
+// object) element is converted with ToString and is in the property list when the iteration ends;
+// anything else is skipped
+//@   calls (Value).string(_) as nm when false
+//@   at_backedge@1 value.kind == valueString || value.kind == valueNumber ==> called(nm) && has(seen, nm)
+//@   at_backedge@1 value.kind == valueObject && is(value.value, *object) && (value.value.(*object).class == classStringName || value.value.(*object).class == classNumberName) ==> called(nm) && has(seen, nm)
 //@   at_call strings.Repeat : 0 <= arg1 && arg1 <= 10
 
 // The four relational operators map to the abstract relational comparison of 11.8.5 with
@@ -2383,6 +2414,10 @@ package otto
 //@   calls checkObjectCoercible(call.runtime, call.This)
 //@   at_call (*object).put : arg0 == searchObject && global && arg1 == "lastIndex" && arg3 && arg2.kind == valueNumber && is(arg2.value, int) && arg2.value.(int) == 0
 //@   at_call (*object).call : arg0 == replace && arg1 == Value{} && len(arg2) == len(match) / 2 + 2
+//@   invariant@3 len(argumentList) == matchCount + 2 && matchCount == len(match) / 2 && 0 <= index
+//@   invariant@3 forall j int :: 0 <= j && j < index && j < matchCount ==> (match[2*j] == -1 ==> argumentList[j] == Value{}) && (match[2*j] != -1 ==> argumentList[j].kind == valueString && is(argumentList[j].value, string))
+//@   at_call (*object).call : forall j int :: 0 <= j && j < len(match) / 2 ==> (match[2*j] == -1 ==> arg2[j] == Value{}) && (match[2*j] != -1 ==> arg2[j].kind == valueString && is(arg2[j].value, string))
+//@   at_call (*object).call : arg2[len(match) / 2].kind == valueNumber && arg2[len(match) / 2 + 1].kind == valueString && is(arg2[len(match) / 2 + 1].value, string) && arg2[len(match) / 2 + 1].value.(string) == target
 //@ func builtinStringStartsWith
 //@   props C09
 //@   nosafety
@@ -2890,10 +2925,19 @@ package otto
 //@   calls builtinUnescape(_) as r
 //@   at_call builtinUnescape : argOf(call, 0).kind == valueString && is(argOf(call, 0).value, string) ==> arg0 == argOf(call, 0).value.(string)
 //@   ensures called(r) && result.kind == valueString && is(result.value, string) && result.value.(string) == r
+//@ spec hexDigitUpper(d uint8) uint8 = ite(d < 10, 48 + d, 55 + d)
+// B.2.1 steps 6-13, per code unit: a unit in the unescaped set is copied, a unit below 256 becomes
+// %XX, any other unit %uXXXX (upper-case hexadecimal digits, most significant first).
 //@ func builtinEscape
 //@   props C13
 //@   safety C02 C13
 //@   invariant@1 0 <= index && length == len(input)
+//@   at_call append @1 : len(arg1) == 1 || len(arg1) == 3 || len(arg1) == 6
+//@   at_call append @1 : len(arg1) == 1 ==> arg1[0] == input[index]
+//@   at_call append @1 : len(arg1) == 3 ==> chr16 < 256 && arg1[0] == 37 && arg1[1] == hexDigitUpper(uint8(chr16 >> 4)) && arg1[2] == hexDigitUpper(uint8(chr16 & 15))
+//@   at_call append @1 : len(arg1) == 6 ==> chr16 >= 256 && arg1[0] == 37 && arg1[1] == 117 && arg1[2] == hexDigitUpper(uint8(chr16 >> 12)) && arg1[3] == hexDigitUpper(uint8((chr16 >> 8) & 15)) && arg1[4] == hexDigitUpper(uint8((chr16 >> 4) & 15)) && arg1[5] == hexDigitUpper(uint8(chr16 & 15))
+//@   at_call builtinShouldEscape : arg0 == input[index]
+//@   at_call append @1 : len(arg1) == 1 <==> escapeKeeps(input[index])
 //@ func builtinUnescape
 //@   props C13
 //@   safety C02 C13
